@@ -69,13 +69,13 @@ claim("C19", PROOF,
       "Proof over uninterpreted library parsers (atoi, pdur, dsize, split, trim as spec functions): rateFlag.Set stores exactly N and D of 'N/D' (D defaults to 1s, a bare unit means one of it), 'infinity' and 0 give Freq 0, malformed counts/units are rejected; headers.Set appends the trimmed value under the case-preserved trimmed key and leaves every other key untouched; "
       "csl.Set, maxBodyFlag.Set (-1, documented sizes, overflow rejected), dnsTTLFlag.Set, connectToFlag.Set (exactly four parts, validated, appended to the source's list, other sources untouched) and resolver normalizeAddrs (':53' appended iff no colon, order kept, host must be an IP, port a uint16) each meet their documented meaning for every input string.",
       "Trusted: go/ssa builder, govc, solvers; assumed contracts of strconv.Atoi/ParseUint, time.ParseDuration, strings.Split/SplitN/TrimSpace/Contains, net.SplitHostPort/ParseIP, datasize.UnmarshalText. "
-      "attack(): an unlimited rate (Freq == 0, which both 0 and infinity give) together with the default -max-workers is refused before anything is set up and before any attack starts - proved with every call attack() makes afterwards over-approximated as 'may change anything, returns anything' (pragma unknowncalls havoc) and with the panic-freedom and callee preconditions of that set-up code ASSUMED (pragma obligations contract; counts in the evidence). "
+      "attack(): an unlimited rate (Freq == 0, which both 0 and infinity give) together with the default -max-workers is refused before anything is set up and before any attack starts - proved with every call attack() makes afterwards over-approximated as 'may change anything, returns anything' (pragma unknowncalls havoc) and with the panic-freedom and callee preconditions of that set-up code ASSUMED (pragma obligations contract; counts in the evidence); attack() also hands every flag value (redirects, timeout, workers, max-workers, keepalive, connections, max-connections, http2, h2c, max-body, unix-socket, chunked, dns-ttl, connect-to, session-tickets, proxy headers), the default body and headers, and rate/duration/name to the library unchanged, and never calls Stop itself (assumption `keeps *opts`: the abstracted calls do not write the options struct). "
       "Not covered: that a rate's printed form parses back (fmt.Sprintf is opaque), flag package plumbing.",
       "DESIGN.md 8/C19")
 
 claim("C20", PROOF,
       "Proof over assumed prometheus-client contracts (ghost per-child sums, WithLabelValues requires the vector's label arity): NewMetrics creates vectors of arity 3,3,3,4; Observe adds BytesIn/BytesOut to the counters of (method,url,status), adds one sample and Latency.Seconds() to that label set's histogram, increments the failure counter of (method,url,status,error) iff the error is non-empty, and leaves every other label set of every vector untouched (whole-view postconditions).",
-      "Trusted: go/ssa builder, govc, solvers; assumed contracts of the prometheus client (child identity per label tuple, Counter.Add/Inc, Observer.Observe); floats uninterpreted. Not covered: cumulative bucket counts and goroutine-safety inside the client library.",
+      "Trusted: go/ssa builder, govc, solvers; assumed contracts of the prometheus client (child identity per label tuple, Counter.Add/Inc, Observer.Observe); floats uninterpreted. Register offers all four collectors and reports any refusal by the registry; the command's result pump observes every result it receives (when metrics are on) before writing it. Not covered: cumulative bucket counts and goroutine-safety inside the client library.",
       "DESIGN.md 8/C20")
 
 claim("C14", PROOF,
@@ -127,7 +127,7 @@ claim("C18", CONC,
       "Proof for all inputs/schedules: firstOfEachIPFamily returns at most one address per IP family, each the first of its family, and modifies nothing (frame: no element of the cache-owned input slice changes); the DNSCaching dial function never writes to the slice handed out by the DNS cache -- also not inside the shuffle callback, which is executed symbolically for arbitrary indices -- shuffles before picking, uses the random generator only with rngMu held, dials JoinHostPort(picked ip, original port) and receives exactly one result per started dial; "
       "the ConnectTo dial function forwards unmapped addresses unchanged, sends the n-th dial of a mapped address to addrs[n mod k] (lemma rotation_period: even rotation) and touches the rotation counter only through one atomic add (declared atomic: any plain access fails a lock obligation); the custom resolver's address() rotates the same way.",
       "Trusted: stubs for net.ParseIP/To4/SplitHostPort/JoinHostPort, dnscache.LookupHost (returns cache-owned, non-fresh memory), math/rand.Shuffle (calls swap with in-range indices any number of times), context, sync/atomic; composition lemma for concurrent dials (mutex/atomic semantics). "
-      "Not covered: that the shuffled slice is a permutation (so 'dials go to a currently resolved address' rests on the stub), uniformity of math/rand, dnscache internals, happy-eyeballs timing, the order of option composition in the command.",
+      "Every address the dial closure dials is one LookupHost returned for that host (resolvedfor, an abstract predicate the LookupHost stub establishes for every returned element; invariant across the copy, the shuffle - callback invariant: holds on entry, one arbitrary swap from an arbitrary state satisfying it preserves it - and firstOfEachIPFamily). In the command, -dns-ttl and -connect-to reach DNSCaching/ConnectTo unchanged. Not covered: that the shuffle is a permutation (no address is lost), uniformity of math/rand, dnscache internals, happy-eyeballs timing, the order of option composition in the command.",
       "DESIGN.md 8/C18")
 
 for p in []:
